@@ -120,6 +120,8 @@ impl Qcow2IoOps for Qcow2IoUring {
 
         match res {
             Err(_) => Err("tokio-uring write failed".into()),
+            // the data isn't written completely
+            Ok(n) if n < buf.len() => Err("tokio-uring short write".into()),
             Ok(_) => Ok(()),
         }
     }
